@@ -780,7 +780,17 @@ func NewDatastoreRollbackAdapter(d *Datastore) *DatastoreRollbackAdapter {
 
 // TransactionRollback is adapted to the datastore.lowlevelTransactionSet() function
 func (dra *DatastoreRollbackAdapter) TransactionRollback(ctx context.Context, transaction *types.Transaction, dryRun bool) (*sdcpb.TransactionSetResponse, error) {
-	return dra.d.lowlevelTransactionSet(ctx, transaction, dryRun)
+	rsp, err := dra.d.lowlevelTransactionSet(ctx, transaction, dryRun)
+	if err != nil {
+		return rsp, err
+	}
+	// a rollback that does not pass the validation has restored nothing: that is not a success
+	for intentName, intentRsp := range rsp.GetIntents() {
+		if len(intentRsp.GetErrors()) > 0 {
+			return rsp, fmt.Errorf("rollback of transaction %s rejected by the validation, intent %s: %s", transaction.GetTransactionId(), intentName, strings.Join(intentRsp.GetErrors(), "; "))
+		}
+	}
+	return rsp, nil
 }
 
 // Assure the types.RollbackInterface is implemented by the DatastoreRollbackAdapter
